@@ -32,6 +32,17 @@ def guardedBy (s : Stmt) (op : Nat) (c : String) : Bool :=
     else if o.contains op then p.cond.any (fun ab => ab.2 && condOf ab.1 == c)
     else p.cond.any (fun ab => !ab.2 && condOf ab.1 == c)
 
+/-- the branch with canonical condition `c` is taken on the path (`b`: which way) -/
+def took (p : Path) (c : String) (b : Bool) : Bool := p.cond.any fun ab => ab.2 == b && condOf ab.1 == c
+
+/-- on every path that gets past the early exits (`live`): the op occurs iff none of the conditions `cs` holds -/
+def unlessAny (s : Stmt) (op : Nat) (cs : List String) (live : List Nat → Bool) : Bool :=
+  (paths s).all fun p =>
+    let o := opsOf p.out.trace
+    !live o || (o.contains op == cs.all fun c => !took p c true)
+
+def markerTest : String := "#0.(observabilityWrappedWriter) ; _"
+
 /-! ### app recorder: OnRequestStart -/
 
 /-- what the model's `runTerm` assumes: an excluded request returns the nil state BEFORE anything is started; otherwise
@@ -44,8 +55,8 @@ theorem start_traces_agree :
 /-- the exclusion test is the first statement and is the path filter on the request path -/
 theorem start_exclusion_first :
     ((paths appOnRequestStart).all fun p =>
-      (opsOf p.out.trace).contains op_retNilState == p.cond.contains (0, true)) = true ∧
-    condOf 0 = "_.pathFilter != nil && _.pathFilter.shouldExclude(#1.URL.Path)" := by
+      (opsOf p.out.trace).contains op_retNilState == p.cond.contains (startFirstAtom, true)) = true ∧
+    condOf startFirstAtom = "_.pathFilter != nil && _.pathFilter.shouldExclude(#1.URL.Path)" := by
   constructor <;> decide +kernel
 
 /-- what was started is remembered in the state fields the end callback tests -/
@@ -54,10 +65,11 @@ theorem start_results_kept :
 
 /-! ### app recorder: WrapResponseWriter -/
 
+/-- the writer is wrapped unless the state is nil (excluded request) or the writer carries the marker -/
 theorem wrap_traces_agree :
     sameSet (opTraces appWrapResponseWriter) [[op_retSame], [op_wrap, op_retWrap]] = true ∧
-    condOf 3 = "#1 == nil" ∧ condOf 4 = "#0.(observabilityWrappedWriter) ; _" := by
-  refine ⟨by decide +kernel, by decide +kernel, by decide +kernel⟩
+    unlessAny appWrapResponseWriter op_wrap ["#1 == nil", markerTest] (fun _ => true) = true := by
+  refine ⟨by decide +kernel, by decide +kernel⟩
 
 /-! ### app recorder: OnRequestEnd -/
 
@@ -104,9 +116,10 @@ theorem end_status_size_provenance :
     endStatusProv = ["_.StatusCode()", "http.StatusOK"] ∧
     endSizeProv = ["0", "_.Size()", "int64(_.Size())"] ∧
     endFinishSpanArgs = [["_.span"], ["_.StatusCode()", "http.StatusOK"]] ∧
-    condOf 6 = "#2.(router.ResponseInfo) ; _" ∧
-    condOf 7 = "#2.(interface{ StatusCode() int }) ; _" ∧ condOf 8 = "#2.(interface{ Size() int }) ; _" := by
-  refine ⟨by decide +kernel, by decide +kernel, by decide +kernel, by decide +kernel, by decide +kernel, by decide +kernel⟩
+    -- the three type assertions are on the writer argument (#2)
+    (["#2.(router.ResponseInfo) ; _", "#2.(interface{ StatusCode() int }) ; _", "#2.(interface{ Size() int }) ; _"].all
+      fun c => conds.any fun ac => ac.2 == c) = true := by
+  refine ⟨by decide +kernel, by decide +kernel, by decide +kernel, by decide +kernel⟩
 
 /-! ### metrics recorder -/
 
@@ -166,9 +179,11 @@ theorem tracing_mw_paired :
       [[op_next], [op_spanStart, op_next, op_spanFinish], [op_spanStart, op_wrap, op_next, op_spanFinish]] = true := by
   constructor <;> decide +kernel
 
-/-- the "already wrapped" test of both middlewares and of the app recorder is the marker interface -/
+/-- the "already wrapped" test of both middlewares is the marker interface: once something was begun / started, the
+    writer is wrapped iff it does not carry the marker (and, for metrics, BeginRequest did not answer nil) -/
 theorem wrapped_test_is_marker :
-    condOf 24 = "#0.(observabilityWrappedWriter) ; _" ∧ condOf 27 = "#0.(observabilityWrappedWriter) ; _" := by
+    unlessAny metricsMiddleware op_wrap [markerTest, "_ == nil"] (fun o => o.contains op_metricsBegin) = true ∧
+    unlessAny tracingMiddleware op_wrap [markerTest] (fun o => o.contains op_spanStart) = true := by
   constructor <;> decide +kernel
 
 /-! ### tracer: one `span.End()` per finished span -/
@@ -192,6 +207,6 @@ theorem finish_exactly_once_exec (ρ : Atom → Bool) :
   all_exec metricsFinish _ finish_exactly_once.1 ρ
 
 /-- non-vacuity: the skeletons are not empty (path counts) -/
-example : pathCount appOnRequestEnd > 100 ∧ pathCount metricsMiddleware = 7 ∧ pathCount tracingMiddleware = 4 := by decide +kernel
+example : pathCount appOnRequestEnd > 10 ∧ pathCount metricsMiddleware > 3 ∧ pathCount tracingMiddleware > 2 := by decide +kernel
 
 end Rivaas.Tie.C08App
